@@ -85,6 +85,12 @@ func c14Alphabet(s *sessSys) []sessReq {
 				p = append(p, sPDR{ID: 3, Prec: 90, Src: ie.SrcInterfaceCore, UEIP: "16.0.0.1", SDF: "permit out udp from 10.1.0.0/16 80 to assigned", FAR: 3, QERs: []uint32{1}})
 				f = append(f, sFAR{ID: 3, Action: ActionForward, HasFwd: true, HasDst: true, Dst: ie.DstInterfaceAccess, OHCIP: c14Peers[1-pi], OHCTEID: teid + 0x10})
 				add(fmt.Sprintf("est-peer%d-teid%x", pi, teid), sessReq{sReq: sReq{Kind: kEst, Conn: 0, CPSEID: 7, CreatePDR: p, CreateFAR: f, CreateQER: q}})
+				if teid == 0x1001 {
+					// the two downlink FARs go to different peers that happened to choose the same TEID value
+					f2 := append([]sFAR{}, f...)
+					f2[2].OHCTEID = teid
+					add(fmt.Sprintf("est-peer%d-both-teid%x", pi, teid), sessReq{sReq: sReq{Kind: kEst, Conn: 0, CPSEID: 7, CreatePDR: p, CreateFAR: f2, CreateQER: q}})
+				}
 			}
 		}
 		return out
@@ -231,7 +237,7 @@ func TestVerifC14(t *testing.T) {
 	res := vNewResult()
 	defer res.write(t)
 	res.Rule = "BFS over chains (depth 5 quick / 6 thorough incl. association and establishment) of Session Modifications with 1-2 Update FARs over flag {SNDEM, 0, SNDEM together with other bits, absent, other bits} x " +
-		"tunnel {peer A, peer B, unchanged} x FAR {known, unknown, second downlink FAR} on sessions established with 2 peers x 2 TEIDs, plus buffer updates, creations with the flag and " +
+		"tunnel {peer A, peer B, unchanged} x FAR {known, unknown, second downlink FAR} on sessions established with 2 peers x 2 TEIDs (+ the two downlink FARs carrying the same TEID value towards different peers), plus buffer updates, creations with the flag and " +
 		"unknown sessions; end markers enabled and disabled; packets taken from the plug-in's end-marker sink and decoded. distinct_nontrivial = distinct canonical states reached"
 	res.Assumptions = []string{"BESS: packets are observed on the channel that feeds the unixpacket socket (endMarkerSendLoop only copies them)", "an update of a rule that had no tunnel before is not constrained by the statement"}
 	depth := 5
@@ -267,7 +273,7 @@ func TestVerifC14(t *testing.T) {
 	for _, sc := range scs {
 		sc := sc
 		// shard by the establishment variant (second operation)
-		for r := 0; r < 4; r++ {
+		for r := 0; r < 6; r++ { // 2 peers x (2 TEIDs + one variant with equal TEIDs)
 			r := r
 			if vMine(item) {
 				ex := &seqExplorer{res: res, scenario: sc, depth: depth}
